@@ -18,6 +18,7 @@ def run(ctx):
     # chain-like graphs with sparse face bases in random order (zero off-diagonal L entries with fill-in)
     ss += S.generate(ctx, 8 if ctx.quick else 40, 2 if ctx.quick else 4, max_e=10, max_loops=4, routings_per_graph=4,
                      names=["banana4", "banana5", "ladder3x", "banana4", "ladder3x"])
+    ss += S.generate(ctx, 2 if ctx.quick else 10, 2, max_e=6, max_loops=5, routings_per_graph=2, names=["banana6"])
     S.run(ss)
     SC.corr_matrix(ctx, ss)
     byg = {}
